@@ -7,7 +7,7 @@
 (*   radices 12, 17, 31, 50, 52, 62 (and cross pairs), ring degrees 1, 2, 4, 8, 16, 64,       *)
 (*   sizes 1..MaxS, shift amounts with every kind of k mod b (0, 1, small, b/2, b-2, b-1),   *)
 (*   value classes: normalised digits, full i64 range, boundary mix, carry ripple.           *)
-EXTENDS Integers, Sequences, FiniteSets, TLC, Json, IOUtils, SequencesExt
+EXTENDS Integers, Sequences, FiniteSets, TLC, Json
 
 CONSTANTS Ns, Bs, MaxS, Classes
 
@@ -17,35 +17,29 @@ D(op, n, rs, as, rb, ab, k, vc) ==
   [op |-> op, n |-> n, na |-> n, rs |-> rs, as |-> as, bs |-> 1, rb |-> rb, ab |-> ab, k |-> k,
    vmax |-> 1, limb |-> 0, part |-> 0, vclass |-> vc, chk |-> "agree"]
 
-Shifts == UNION { { D(op, n, rs, as, b, b, k, vc) :
-                      op \in {"lsh", "rsh", "lsh_add_into", "rsh_add_into", "lsh_sub", "rsh_sub"}, k \in Ks(b, as) }
-                  : n \in Ns, rs \in S, as \in S, b \in Bs, vc \in Classes }
-ShiftAssign == UNION { { D(op, n, rs, rs, b, b, k, vc) : op \in {"lsh_assign"}, k \in Ks(b, rs) } : n \in Ns, rs \in S, b \in Bs, vc \in Classes }
-Norm == UNION { { D(op, n, rs, as, rb, ab, k, vc) : op \in {"normalize", "big_normalize"}, k \in {0, 1, ab - 1, ab} }
-                : n \in Ns, rs \in S, as \in S, rb \in Bs, ab \in Bs, vc \in Classes }
-\* equal radices only for the NTT120/FFT64 comparison of big_normalize (cross-radix rounding differs: known finding)
-\* ... and only for values inside the i64 accumulator's headroom (classes 10, 13): with full-range digits the i64
-\* accumulator of FFT64 wraps where the i128 accumulator of NTT120 does not, which is outside the common domain
-Norm1 == { d \in Norm : d.op = "normalize" \/ (d.rb = d.ab /\ d.vclass \in {10, 13}) }
-NormAssign == { D("normalize_assign", n, rs, rs, b, b, 0, vc) : n \in Ns, rs \in S, b \in Bs, vc \in Classes }
-\* wrapping ring kernels over the whole i64 range
-Ring == { D(op, n, rs, as, 62, 62, k, 11) :
-            op \in {"add_into", "sub", "add_assign", "sub_assign", "sub_negate_assign", "negate", "rotate", "automorphism", "mul_xp_minus_one"},
-            n \in Ns, rs \in S, as \in S, k \in {1, 3, 5} }
-
-\* 128-bit accumulators holding values beyond 64 bits (class 14: a seeded 40-bit high part on every word): only the NTT120 family
-\* can hold them, so these events are compared within a back-end family (reference against AVX); every radix pair, offsets of
-\* either sign with every kind of k mod b, plain / fused add / fused sub / negated forms
-NormWide == UNION { { D(op, n, rs, as, rb, ab, k, 14) :
-                        op \in {"big_normalize", "big_normalize_add_assign", "big_normalize_sub_assign", "big_normalize_negate"},
-                        k \in {0, 1, ab \div 2, ab - 1, ab, ab + 1, -1, 1 - ab, -ab} }
-                    : n \in (Ns \ {1}), rs \in {3, 4, 6}, as \in {2, 4}, rb \in Bs, ab \in Bs }
-Descs == NormWide \cup Shifts \cup ShiftAssign \cup Norm1 \cup NormAssign \cup Ring
-
-ASSUME ndJsonSerialize(IOEnv.OUT, SetToSeq(Descs))
-ASSUME PrintT(<<"GENERATED", Cardinality(Descs)>>)
-
+\* ---- one TLC state per descriptor (printed by the invariant Emit): the families are quantified, never built as sets
 VARIABLE c
-Init == c \in Descs
-Next == UNCHANGED c
+Init == c = [op |-> "none"]
+Next ==
+  /\ c.op = "none"
+  /\ \/ \E op \in {"lsh", "rsh", "lsh_add_into", "rsh_add_into", "lsh_sub", "rsh_sub"}, n \in Ns, rs \in S, as \in S, b \in Bs, vc \in Classes : \E k \in Ks(b, as) :
+            c' = D(op, n, rs, as, b, b, k, vc)
+     \/ \E n \in Ns, rs \in S, b \in Bs, vc \in Classes : \E k \in Ks(b, rs) : c' = D("lsh_assign", n, rs, rs, b, b, k, vc)
+     \/ \* equal radices only for the NTT120/FFT64 comparison of big_normalize (cross-radix rounding differs: known finding)
+        \* ... and only for values inside the i64 accumulator's headroom (classes 10, 13): with full-range digits the i64
+        \* accumulator of FFT64 wraps where the i128 accumulator of NTT120 does not, which is outside the common domain
+        \E op \in {"normalize", "big_normalize"}, n \in Ns, rs \in S, as \in S, rb \in Bs, ab \in Bs, vc \in Classes : \E k \in {0, 1, ab - 1, ab} :
+            /\ (op = "normalize" \/ (rb = ab /\ vc \in {10, 13}))
+            /\ c' = D(op, n, rs, as, rb, ab, k, vc)
+     \/ \E n \in Ns, rs \in S, b \in Bs, vc \in Classes : c' = D("normalize_assign", n, rs, rs, b, b, 0, vc)
+     \/ \* wrapping ring kernels over the whole i64 range
+        \E op \in {"add_into", "sub", "add_assign", "sub_assign", "sub_negate_assign", "negate", "rotate", "automorphism", "mul_xp_minus_one"},
+           n \in Ns, rs \in S, as \in S, k \in {1, 3, 5} : c' = D(op, n, rs, as, 62, 62, k, 11)
+     \/ \* 128-bit accumulators holding values beyond 64 bits (class 14: a seeded 40-bit high part on every word): only the NTT120
+        \* family can hold them, so these events are compared within a back-end family (reference against AVX); every radix pair,
+        \* offsets of either sign with every kind of k mod b, plain / fused add / fused sub / negated forms
+        \E op \in {"big_normalize", "big_normalize_add_assign", "big_normalize_sub_assign", "big_normalize_negate"},
+           n \in (Ns \ {1}), rs \in {3, 4, 6}, as \in {2, 4}, rb \in Bs, ab \in Bs : \E k \in {0, 1, ab \div 2, ab - 1, ab, ab + 1, -1, 1 - ab, -ab} :
+            c' = D(op, n, rs, as, rb, ab, k, 14)
+Emit == c.op # "none" => PrintT(<<"DESC", ToJson(c)>>)
 =============================================================================
